@@ -4,7 +4,7 @@ import ast
 
 from .. import AnalysisError
 from ..flow import show, walk_term
-from ..report import ob_ok, ob_fail
+from ..report import ob_ok, ob_fail, ob_undecided
 from .common import (is_call, method_call, node_attr, edge_attr, elem_of, strip_wrappers, guards_of,
                      enclosing_loops, need, contains)
 from . import truth
@@ -582,6 +582,8 @@ def _aromatic_guard(bs, tests):
                         return "aromaticity is read from %s, which is not an endpoint of the bond" % show(t).replace(show(bs.M), "MATCH")
     if {i for _, i in gets} != {0, 1}:
         return "the guard does not look at the 'aromatic' attribute of both endpoint atoms"
+    # guards that do not consult aromaticity (for example the all-atom flag) only restrict where 1.5 can occur
+    tests = [t for t in tests if any(x is c for c, _ in gets for x in ast.walk(t[0]))]
     import itertools
     states = [True, False, MISSING]
     for s0, s1 in itertools.product(states, repeat=2):
@@ -671,8 +673,22 @@ def prov_squash(repo, tier="quick"):
         # evaluate over kinds: names in tests that canon to pair_t / pair_t[0] / pair_t[1]
         import itertools
         from ..absint import Evaluator, Unsupported, descriptor
+        def about_pair(test, gid):
+            for sub in ast.walk(test):
+                if isinstance(sub, ast.Name) and sub.id in fl.locals:
+                    ct = fl.canon(sub, gid)
+                    if ct in (pair_t, _fold_sub(fl, pair_t, 0), _fold_sub(fl, pair_t, 1)):
+                        return True
+            return False
+        extra_tests = [t_ for t_ in tests if not about_pair(t_[0], t_[2])]
+        tests = [t_ for t_ in tests if about_pair(t_[0], t_[2])]
+        for test, pol, gid in extra_tests:
+            obs.append(ob_undecided("PROV.squash-protocol", fi, test, construct="extra condition on the contraction: %s" % ast.unparse(test), instance="guard:extra",
+                                    reason="a '!' bond is contracted only under an additional condition the rule cannot interpret"))
         table = {}
         for kl, kr in itertools.product(truth.KINDS, truth.KINDS):
+            if not tests:
+                break
             L, R = descriptor(kl, 1, 1), descriptor(kr, 1, 1)
             val = True
             for test, pol, gid in tests:
@@ -694,6 +710,8 @@ def prov_squash(repo, tier="quick"):
                 val = val and (r if pol else not r)
             table[(kl, kr)] = val
         # a '!' pair is always ('!','!') (compatible); judge on the diagonal and on the left kind
+        if not tests:
+            table = {(k, k): True for k in truth.KINDS}
         bad = [(k, v) for k, v in table.items() if k[0] == k[1] and v != (k[0] == "!")]
         (obs.append(ob_fail("PROV.squash-protocol", fi, call, construct="guard over descriptor kinds", instance="guard",
                             reason="contraction for kinds %s; it must happen exactly for '!' pairs" % [k[0] for k, v in bad if v] if any(v for k, v in bad)
@@ -715,6 +733,12 @@ def prov_squash(repo, tier="quick"):
         if d0s is not None and d1s is not None:
             d0, d1 = d0s, d1s
     ends_ok = d0 is not None and d1 is not None and d0 == d1
+    if ends_ok:
+        fresh = d0 == ("dict", ()) or (d0[0] == "call" and d0[2] == ("builtin", "dict") and not d0[3] and not d0[4])
+        (obs.append(ob_ok("PROV.squash-protocol", fi, call, construct="merge record is a fresh local dict per call", instance="remap-fresh",
+                          reason="node keys restart at every resolution level; a record kept from an earlier level would redirect unrelated atoms")) if fresh else
+         obs.append(ob_fail("PROV.squash-protocol", fi, call, construct="merge record is %s" % show(d0), instance="remap-fresh",
+                            reason="the record of earlier merges outlives the call: entries from a previous resolution level redirect '!' bonds of this level")))
     (obs.append(ob_ok("PROV.squash-protocol", fi, call, construct="contracted_nodes(G, squashed.get(e0, e0), squashed.get(e1, e1))", instance="endpoints",
                       reason="the merged atoms are the '!' bond's endpoints, followed through earlier merges")) if ends_ok else
      obs.append(ob_fail("PROV.squash-protocol", fi, call, construct="contracted_nodes(G, %s, %s)" % (show(keep), show(rem)), instance="endpoints",
